@@ -1,9 +1,11 @@
 CONSTANTS
   Setups <- MCSetups
   ShowCids <- MCShow
-  MaxShow = 4
+  MaxShow = 3
+  Dev <- NoDev
 INIT Init
 NEXT Next
 INVARIANT PlacementRef
 INVARIANT VerticalPlacement
+INVARIANT DevLocal
 CHECK_DEADLOCK FALSE
